@@ -42,6 +42,7 @@ type Tier struct {
 // Unit functions by name.
 var Units = map[string]func(p *load.Program, r *Roles, t Tier) *UnitResult{
 	"loops":  func(p *load.Program, r *Roles, t Tier) *UnitResult { return AnalyzeRetryLoops(p, r) },
+	"bind":   func(p *load.Program, r *Roles, t Tier) *UnitResult { return AnalyzeBind(p, r, t.Depth) },
 	"access": func(p *load.Program, r *Roles, t Tier) *UnitResult { return AnalyzeAccessors(p, r, t.Depth) },
 	"pool":   func(p *load.Program, r *Roles, t Tier) *UnitResult { return AnalyzePool(p, r, t.Depth) },
 	"store":  func(p *load.Program, r *Roles, t Tier) *UnitResult { return AnalyzeStore(p, r, t.Depth) },
@@ -171,6 +172,12 @@ func init() {
 		Floors: []Floor{{"C15.R1@*:may-panic", 30, "may-panic scan of every accessor"}, {"C15.R4@*:table", 30, "decision tables of all accessors"}, {"C15.R3@SharedStore.*:table", 12, "store accessors"}, {"C15.R5@*Slice*:table", 5, "slice family"},
 			{"C15.R6@ToSlice:*", 4, "ToSlice cases"}, {"C15.R1@ToSlice:*", 4, "ToSlice reflect preconditions"}},
 		Assumptions: append(append([]string{}, commonAssumptions...), "numeric results of Go's own conversions are the specification; reflect and type-switch semantics are trusted")})
+	reg(&Prop{ID: "C16", Units: []string{"bind"}, Technique: "static analysis: may-panic scan + path-sensitive reflect-precondition and Marshal->Unmarshal provenance check + sibling outcome comparison",
+		Explanation: "Both Bind implementations are explored path-sensitively (Get summarised as a deterministic call, reflect and json.Marshal as deterministic functions of their arguments). (R1) no instruction can panic and every reflect call's precondition (Kind()==Ptr before IsNil/Elem/Type().Elem(), non-nil and identical types before Set) is implied by the path facts. (R2) json.Marshal is applied to the bound value; json.Unmarshal receives exactly Marshal's bytes and the caller's destination, only after Marshal is known to have succeeded; success is returned only after the identity copy or a successful decode; marshal/unmarshal errors are returned wrapped. (R3) a missing key, a nil result value, a nil or non-pointer destination end in an error return before any binding. (R4) Bind has no write effect other than through the destination. (R5) the identity copy is taken exactly under TypeOf(value) == element type of dest and sets *dest to the value; the JSON path only when the types are known to differ; both Binds have the same set of outcome classes.",
+		CaseRule:    "an obligation instance is one (abstract path, event) pair in one Bind; distinct = distinct rule@construct keys",
+		Floors: []Floor{{"C16.R1@*.Bind:may-panic", 2, "may-panic scan of both Binds"}, {"C16.R1@*.Bind:(reflect.Value).Set", 2, "Set preconditions"}, {"C16.R1@*.Bind:(reflect.Value).IsNil", 2, "IsNil preconditions"}, {"C16.R2@*.Bind:unmarshal", 2, "Marshal->Unmarshal provenance"},
+			{"C16.R2@*.Bind:success-return", 2, "success only after binding"}, {"C16.R2@*.Bind:error-return", 2, "json errors returned"}, {"C16.R3@*.Bind:invalid-input-return", 2, "invalid inputs"}, {"C16.R5@*.Bind:fast-path", 2, "identity copy condition"}, {"C16.R5@Bind:siblings", 1, "sibling agreement"}},
+		Assumptions: append(append([]string{}, commonAssumptions...), "encoding/json is the reference for the round trip (cyclic data, panicking MarshalJSON are outside)")})
 	reg(&Prop{ID: "C04", Units: []string{"run", "flow"}, Technique: "static analysis: path-sensitive error-provenance (wrap-chain) abstract interpretation over go/ssa",
 		Explanation: lifeExpl + " C04 decides on Run (single and batch paths): nil error iff the path ended in a successful post; every error return that follows a failing callback wraps (fmt.Errorf %w / errors.Join / identity) that callback's own error term, and no further phase callback is invoked after it.",
 		CaseRule:    "an obligation instance is one (abstract path, return or call site) pair; distinct = distinct rule@construct keys",
